@@ -1950,6 +1950,8 @@ class JoinOn(Join):
         """
         if self.item == current_table:
             self.item = new_table  # type:ignore[assignment]
+        elif isinstance(self.item, QueryBuilder):
+            self.item = self.item.replace_table(current_table, new_table)
         self.criterion = self.criterion.replace_table(current_table, new_table)
 
 
@@ -1985,6 +1987,8 @@ class JoinUsing(Join):
         """
         if self.item == current_table:
             self.item = new_table  # type:ignore[assignment]
+        elif isinstance(self.item, QueryBuilder):
+            self.item = self.item.replace_table(current_table, new_table)
         self.fields = [field.replace_table(current_table, new_table) for field in self.fields]
 
 
